@@ -628,6 +628,20 @@ class DataMixin:
         h.items.extend(items)
         return NONE
 
+    # collections.deque is modelled as a list: popleft / appendleft are pop(0) / insert(0, x)
+    def cm_HList_popleft(self, lst):
+        return self.cm_HList_pop(lst, VInt(0))
+
+    def cm_HList_appendleft(self, lst, v):
+        self.ex.heap[lst.addr].items.insert(0, v)
+        return NONE
+
+    def cm_HSymList_popleft(self, lst):
+        return self.cm_HSymList_pop(lst, VInt(0))
+
+    def cm_HSymList_appendleft(self, lst, v):
+        return self.cm_HSymList_insert(lst, VInt(0), v)
+
     def cm_HList_clear(self, lst):
         self.ex.heap[lst.addr].items.clear()
         return NONE
